@@ -128,8 +128,10 @@ pub fn c09(c: &mut Ctx, b: &Budget) {
                     Ok(Err(x)) => c.check("verifies-iff-signed", false, "verification-error", || format!("{}: key {} expected {} got Err({}) on {}", what, s.name, want, x, shape(env))),
                     Err(site) => c.check("no-panic", false, "verification-panic", || site),
                 }
+                // verify_signature_from is has_signature_from with an error for `false`: the two must agree with each other
                 let vr = guarded(|| env.verify_signature_from(&s.pk).is_ok());
-                c.check("verify-agrees", vr == Ok(want) || vr.is_err(), "verify-agrees", || format!("{} verify_signature_from disagrees for {}", what, s.name));
+                let has = guarded(|| env.has_signature_from(&s.pk).ok());
+                c.check("verify-agrees", vr.is_err() || has.is_err() || has == vr.clone().map(Some), "verify-agrees", || format!("{}: verify_signature_from says {:?}, has_signature_from says {:?} for {}", what, vr, has, s.name));
             }
         };
         verify_all(c, &signed, "fresh");
@@ -580,7 +582,27 @@ pub fn c17(c: &mut Ctx, b: &Budget) {
             match guarded(|| e.add_salt_with_len(n)) { Ok(Ok(s)) => { c.check("short-salt-refused", n >= 8, "short-salt-accepted", || format!("len {}", n)); check_one(c, &s, n, n, "add_salt_with_len"); }
                 Ok(Err(_)) => c.check("short-salt-refused", n < 8, "valid-salt-refused", || format!("len {}", n)), Err(site) => c.check("no-panic", false, "salt-panic", || site) }
         }
-        for (lo2, hi2) in [(0usize, 4usize), (7, 20), (8, 8), (8, 20), (30, 40)] {
+        // fresh threads: salts drawn on threads that have never salted before are as independent as any others
+        if i % 4 == 0 {
+            let bytes = bytes_of(&e);
+            let hs: Vec<std::thread::JoinHandle<Option<Vec<Vec<u8>>>>> = (0..3).map(|_| { let bytes = bytes.clone(); std::thread::spawn(move || {
+                std::panic::catch_unwind(|| {
+                    let e = Envelope::try_from_cbor_data(bytes).ok()?;
+                    let enc = |x: &Envelope| x.tagged_cbor().to_cbor_data();
+                    Some(vec![enc(&e.add_salt()), enc(&e.add_salt_with_len(16).ok()?), enc(&e.add_salt_in_range(8..=16).ok()?), enc(&e.add_assertion_salted("p", "o", true)), enc(&e.add_salt())])
+                }).ok().flatten()
+            }) }).collect();
+            let outs: Vec<Option<Vec<Vec<u8>>>> = hs.into_iter().map(|h| h.join().ok().flatten()).collect();
+            c.check("salting-on-fresh-thread-succeeds", outs.iter().all(|o| o.is_some()), "salt-thread-failed", || "salting on a spawned thread failed".into());
+            let outs: Vec<Vec<Vec<u8>>> = outs.into_iter().flatten().collect();
+            for k in 0..5 {
+                let mut seen: HashSet<&Vec<u8>> = HashSet::new();
+                let distinct = outs.iter().all(|o| seen.insert(&o[k]));
+                c.check("independent-salts-differ", distinct, "salts-equal", || format!("salting call {} gave the same envelope on two freshly spawned threads", k));
+            }
+            c.count("branch:fresh-thread-salts");
+        }
+        for (lo2, hi2) in [(0usize, 0usize), (0, 4), (4, 4), (7, 7), (7, 20), (8, 8), (8, 20), (30, 40)] {
             match guarded(|| e.add_salt_in_range(lo2..=hi2)) { Ok(Ok(s)) => { c.check("short-range-refused", lo2 >= 8, "short-salt-accepted", || format!("range {}..={}", lo2, hi2)); check_one(c, &s, lo2, hi2, "add_salt_in_range"); }
                 Ok(Err(_)) => c.check("short-range-refused", lo2 < 8, "valid-salt-refused", || format!("range {}..={}", lo2, hi2)), Err(site) => c.check("no-panic", false, "salt-panic", || site) }
         }
@@ -827,6 +849,28 @@ pub fn c19(c: &mut Ctx, b: &Budget) {
             ("vendor-not-text", Envelope::new_assertion(known_values::ATTACHMENT, Envelope::new("p").wrap_envelope().add_assertion(known_values::VENDOR, 7))),
             ("not-an-assertion", Envelope::new("plain")),
         ];
+        // the same attachment (same digest, validated above) with the parts validation must read obscured
+        let mut malformed = malformed;
+        {
+            let host_ok = e.add_assertion_envelope(good.clone()).unwrap();
+            let _ = guarded(|| host_ok.attachments());
+            let va = obj.assertion_with_predicate(known_values::VENDOR).unwrap();
+            let ca = obj.assertion_with_predicate(known_values::CONFORMS_TO).unwrap();
+            let mut t: HashSet<bc_components::Digest> = HashSet::new();
+            let mut variant = |name: &'static str, targets: Vec<Envelope>, malformed: &mut Vec<(&str, Envelope)>| {
+                t.clear(); for x in &targets { t.insert(x.digest().into_owned()); }
+                for (k, m) in [good.elide_removing_set(&t), good.elide_removing_set_with_action(&t, &ObscureAction::Compress)].into_iter().enumerate() {
+                    if m.digest() == good.digest() && !m.is_identical_to(&good) && m.is_assertion() { malformed.push((if k == 0 { name } else { "compressed-part" }, m)); }
+                }
+            };
+            variant("object-elided", vec![obj.clone()], &mut malformed);
+            variant("vendor-assertion-elided", vec![va.clone()], &mut malformed);
+            variant("vendor-value-elided", vec![va.as_object().unwrap()], &mut malformed);
+            variant("conforms-assertion-elided", vec![ca.clone()], &mut malformed);
+            variant("conforms-value-elided", vec![ca.as_object().unwrap()], &mut malformed);
+            variant("wrapped-payload-subject-elided", vec![obj.subject()], &mut malformed);
+            c.count_n("branch:obscured-attachment-variants", malformed.len() as u64 - 7);
+        }
         for (name, m) in &malformed {
             let got = guarded(|| m.validate_attachment());
             c.check("malformed-invalid", matches!(got, Ok(Err(_))), "malformed-attachment-accepted", || format!("{}: {}", name, shape(m)));
